@@ -24,14 +24,17 @@ thread_local! {
 pub fn install_quiet_panic_hook() {
     std::panic::set_hook(Box::new(|info| {
         let msg = format!("{}", info);
+        if std::env::var_os("VERIF_PANIC_VERBOSE").is_some() {
+            eprintln!("PANIC: {}", msg);
+        }
         LAST_PANIC.with(|p| *p.borrow_mut() = Some(msg));
     }));
 }
 
 pub fn kind_supported(kind: Kind) -> bool {
     match kind {
-        Kind::Bdd | Kind::Bcdd | Kind::Zbdd => true,
-        _ => false,
+        Kind::MtbddI | Kind::MtbddF => cfg!(not(feature = "pointer")),
+        _ => true,
     }
 }
 
@@ -40,6 +43,12 @@ fn make_machine(cfg: &Config) -> Box<dyn Machine> {
         Kind::Bdd => Box::new(crate::kinds::bdd::Mach::new(cfg)),
         Kind::Bcdd => Box::new(crate::kinds::bcdd::Mach::new(cfg)),
         Kind::Zbdd => Box::new(crate::kinds::zbdd::Mach::new(cfg)),
+        Kind::Tdd => Box::new(crate::kinds::tdd::Mach::new(cfg)),
+        #[cfg(not(feature = "pointer"))]
+        Kind::MtbddI => Box::new(crate::kinds::mtbdd_i::Mach::new(cfg)),
+        #[cfg(not(feature = "pointer"))]
+        Kind::MtbddF => Box::new(crate::kinds::mtbdd_f::Mach::new(cfg)),
+        #[allow(unreachable_patterns)]
         k => panic!("kind {:?} not built", k),
     }
 }
